@@ -585,7 +585,7 @@ fn check_representative(rep: &mut Report, drv: &mut Driver, name: &str, prog: &P
 /// One class representative of the differential run (`c01/classcorpus.rs`): the Lean Spec, the
 /// harness interpreter (third voice) and the JIT on every argument tuple of the representative.
 fn check_class_rep(rep: &mut Report, drv: &mut Driver, r: &classcorpus::Rep) {
-    let (src, sx) = (source(&r.prog), sexp(&r.prog));
+    let (src, sx) = (r.source(), sexp(&r.prog));
     let arity = r.prog.main().params.len();
     let c = Case { src: &src, sexp: &sx, ty: r.ty, arity, ret: r.ret };
     let ident = json!({"class_representative": r.name, "src": src, "sexp": sx, "ty": r.ty.name(), "arity": arity, "ret": r.ret.name()});
@@ -718,6 +718,95 @@ fn table(rep: &mut Report, drv: &mut Driver, prng: &mut Prng, tyidx: usize, extr
     }
 }
 
+
+// ------------------------------------------------- `char` parameters and results of `main`
+
+/// `main` whose parameters are all `char` and whose result is `char` or `bool`, callable on code points
+fn compile_char_main(src: &str, arity: usize, ret_char: bool) -> Result<Callable, String> {
+    let rt: &'static Runtime<roto::NoCtx> = Box::leak(Box::new(Runtime::new()));
+    let tree = FileTree::test_file("c01.roto", src, 0);
+    let mir = lower_to_mir(tree, rt).map_err(|e| format!("{e}"))?;
+    let mut pkg = mir.lower_to_lir().codegen();
+    fn ch(b: u64) -> char { char::from_u32(b as u32).expect("a scalar value") }
+    let call: Callable = match (arity, ret_char) {
+        (1, true) => { let f = pkg.get_function::<fn(char) -> char>("main").map_err(|e| format!("{e:?}"))?; Box::new(move |a| f.call(ch(a[0])) as u32 as u64) }
+        (1, false) => { let f = pkg.get_function::<fn(char) -> bool>("main").map_err(|e| format!("{e:?}"))?; Box::new(move |a| f.call(ch(a[0])) as u64) }
+        (2, true) => { let f = pkg.get_function::<fn(char, char) -> char>("main").map_err(|e| format!("{e:?}"))?; Box::new(move |a| f.call(ch(a[0]), ch(a[1])) as u32 as u64) }
+        (2, false) => { let f = pkg.get_function::<fn(char, char) -> bool>("main").map_err(|e| format!("{e:?}"))?; Box::new(move |a| f.call(ch(a[0]), ch(a[1])) as u64) }
+        (3, true) => { let f = pkg.get_function::<fn(char, char, char) -> char>("main").map_err(|e| format!("{e:?}"))?; Box::new(move |a| f.call(ch(a[0]), ch(a[1]), ch(a[2])) as u32 as u64) }
+        (3, false) => { let f = pkg.get_function::<fn(char, char, char) -> bool>("main").map_err(|e| format!("{e:?}"))?; Box::new(move |a| f.call(ch(a[0]), ch(a[1]), ch(a[2])) as u64) }
+        _ => return Err("arity unsupported".into()),
+    };
+    Box::leak(Box::new(pkg));
+    Ok(call)
+}
+
+fn compile_char_guarded(src: &str, arity: usize, ret_char: bool) -> Result<Result<Callable, String>, String> {
+    catch_unwind(AssertUnwindSafe(|| compile_char_main(src, arity, ret_char))).map_err(|e| {
+        if let Some(s) = e.downcast_ref::<String>() { s.clone() } else if let Some(s) = e.downcast_ref::<&str>() { s.to_string() } else { "panic".to_string() }
+    })
+}
+
+/// boundary code points: around the 7/8-bit, 8/9-bit, 16/17-bit borders, both sides of the surrogate gap, the maximum
+const CHAR_BOUNDARY: [u64; 14] = [0, 0x61, 0x7F, 0x80, 0xFF, 0x100, 0x161, 0xD7FF, 0xE000, 0xFFFF, 0x10000, 0x10061, 0x1F600, 0x10FFFF];
+
+/// `char` as parameter and result type of the called function: `==`, `!=`, identity, selection, comparison with a
+/// literal, on every pair / triple of boundary code points. Oracle: the Lean Spec on the same program over `u32`.
+fn char_args(rep: &mut Report, drv: &mut Driver) {
+    let progs: Vec<(&str, &str, &str, usize, bool)> = vec![
+        ("a == b", "fn main(a: char, b: char) -> bool { a == b }", "(prog (fn main ((a u32) (b u32)) bool (blk () (bin eq (var a) (var b)))))", 2, false),
+        ("a != b", "fn main(a: char, b: char) -> bool { a != b }", "(prog (fn main ((a u32) (b u32)) bool (blk () (bin ne (var a) (var b)))))", 2, false),
+        ("a", "fn main(a: char) -> char { a }", "(prog (fn main ((a u32)) u32 (blk () (var a))))", 1, true),
+        ("b", "fn main(a: char, b: char) -> char { b }", "(prog (fn main ((a u32) (b u32)) u32 (blk () (var b))))", 2, true),
+        ("a == 'a'", "fn main(a: char) -> bool { a == 'a' }", "(prog (fn main ((a u32)) bool (blk () (bin eq (var a) (lit u32 97)))))", 1, false),
+        ("if a == b { c } else { a }", "fn main(a: char, b: char, c: char) -> char { if a == b { c } else { a } }",
+         "(prog (fn main ((a u32) (b u32) (c u32)) u32 (blk () (if (bin eq (var a) (var b)) (blk () (var c)) (blk () (var a))))))", 3, true),
+        ("a != b && b != c", "fn main(a: char, b: char, c: char) -> bool { a != b && b != c }",
+         "(prog (fn main ((a u32) (b u32) (c u32)) bool (blk () (bin and (bin ne (var a) (var b)) (bin ne (var b) (var c))))))", 3, false),
+    ];
+    let bd = CHAR_BOUNDARY;
+    for (name, src, sx, arity, ret_char) in progs {
+        let mut args: Vec<Vec<u64>> = vec![];
+        match arity {
+            1 => for x in bd { args.push(vec![x]); },
+            2 => for x in bd { for y in bd { args.push(vec![x, y]); } },
+            _ => {
+                for (i, x) in bd.iter().enumerate() { for (j, y) in bd.iter().enumerate() { args.push(vec![*x, *y, bd[(i + 2 * j + 1) % bd.len()]]); } }
+                for x in bd { for z in bd { args.push(vec![x, x, z]); } }
+            }
+        }
+        let ret = if ret_char { STy::U32 } else { STy::Bool };
+        let c = Case { src, sexp: sx, ty: STy::U32, arity, ret };
+        let spec = match spec_answers(drv, &c, &args) {
+            Ok(s) => s,
+            Err(e) => { rep.mismatch("Lean spec rejects a char-argument program", json!({"src": src, "sexp": sx, "error": e})); continue; }
+        };
+        let call = match compile_char_guarded(src, arity, ret_char) {
+            Ok(Ok(c)) => c,
+            Ok(Err(e)) => { rep.mismatch("a char-argument program does not compile", json!({"src": src, "error": e.chars().take(1000).collect::<String>()})); continue; }
+            Err(p) => { rep.violation("the compiler panicked on a well-typed program", &format!("compiler-panic char-arg {name}"), json!({"src": src, "panic": p})); continue; }
+        };
+        let mut bad = false;
+        for (a, s) in args.iter().zip(&spec) {
+            rep.evaluations += 1;
+            let Some((t, b)) = parse_ok(s) else { rep.mismatch("spec answer not understood", json!({"src": src, "args": a, "answer": s})); bad = true; break; };
+            let j = canon(ret.name(), call(a));
+            if t != ret.name() || j != b {
+                rep.violation(
+                    "the compiled function returns a value different from the language-defined result (Lean Spec)",
+                    &format!("char-arg {name}"),
+                    json!({"src": src, "sexp": sx, "char_main": true, "ty": "u32", "arity": arity, "ret": ret.name(), "args": a, "spec": s, "jit_bits": j,
+                           "note": "parameters (and a u32 result) are `char`; args are code points"}),
+                );
+                bad = true;
+                break;
+            }
+        }
+        rep.hist("class-representatives char-args", if bad { "DIFFERENT" } else { "agree" });
+        if !bad { rep.class(format!("rep:char-arg/{name}")); }
+    }
+}
+
 // -------------------------------------------------------------------- main
 
 fn replay_one(rep: &mut Report, drv: &mut Driver, v: &Value) {
@@ -731,6 +820,22 @@ fn replay_one(rep: &mut Report, drv: &mut Driver, v: &Value) {
     let spec = spec_answers(drv, &c, &[args.clone()]).expect("spec accepts the program");
     println!("args = {args:?}\nspec = {}", spec[0]);
     rep.evaluations = 1;
+    if v.get("char_main").and_then(|b| b.as_bool()).unwrap_or(false) {
+        match compile_char_guarded(src, args.len(), ret == STy::U32) {
+            Ok(Ok(call)) => {
+                if let Some((t, b)) = parse_ok(&spec[0]) {
+                    let j = canon(ret.name(), call(&args));
+                    println!("jit  = ok {} {j}", ret.name());
+                    if t != ret.name() || j != b {
+                        rep.violation("the compiled function returns a value different from the language-defined result (Lean Spec)", "replay", v.clone());
+                    }
+                }
+            }
+            Ok(Err(e)) => { println!("does not compile: {e}"); rep.mismatch("replayed program does not compile", v.clone()); }
+            Err(p) => { println!("compiler panic: {p}"); rep.violation("the compiler panicked on a well-typed program", "compiler-panic", v.clone()); }
+        }
+        return;
+    }
     match compile_guarded(&c) {
         Ok(Ok(comp)) => {
             if let Some((t, b)) = parse_ok(&spec[0]) {
@@ -760,15 +865,15 @@ fn main() {
             let ntys = generator::all_tys().len() as u64;
             let extra = if thorough { "1500" } else { "60" };
             // class representatives of the differential run first (seed-independent), in workers
-            for family in ["match", "match-order", "float"] {
+            for family in ["match", "match-order", "float", "char", "for"] {
                 let (ended, out) = run_worker_keep_stdout(&["classcorpus", family], Duration::from_secs(300));
                 if let Some(v) = Report::parse_stdout(&out) { rep.merge_json(&v); }
                 if !matches!(ended, Ended::Exit(0, _)) {
                     let last = out.lines().rev().find(|l| l.starts_with("START ")).unwrap_or("").to_string();
                     let name = last.strip_prefix("START classcorpus ").unwrap_or("").to_string();
-                    let reps = match family { "match" => classcorpus::match_corpus(), "match-order" => classcorpus::order_corpus(), _ => classcorpus::float_corpus() };
+                    let reps = match family { "match" => classcorpus::match_corpus(), "match-order" => classcorpus::order_corpus(), "char" => classcorpus::char_corpus(), "for" => classcorpus::for_corpus(), _ => classcorpus::float_corpus() };
                     let input = match reps.iter().find(|r| r.name == name) {
-                        Some(r) => json!({"src": source(&r.prog), "sexp": sexp(&r.prog), "ty": r.ty.name(), "arity": r.prog.main().params.len(),
+                        Some(r) => json!({"src": r.source(), "sexp": sexp(&r.prog), "ty": r.ty.name(), "arity": r.prog.main().params.len(),
                                           "ret": r.ret.name(), "args": r.args[0], "class_representative": r.name, "ended": format!("{ended:?}"),
                                           "note": "the process died or hung on one of the representative's argument tuples; args is the first tuple"}),
                         None => json!({"ended": format!("{ended:?}"), "last": last}),
@@ -864,7 +969,12 @@ fn main() {
                     }
                 }
                 "classcorpus" => {
-                    let reps = match args[3].as_str() { "match" => classcorpus::match_corpus(), "match-order" => classcorpus::order_corpus(), _ => classcorpus::float_corpus() };
+                    if args[3] == "char" {
+                        println!("START classcorpus char-args");
+                        std::io::stdout().flush().ok();
+                        char_args(&mut rep, &mut drv);
+                    }
+                    let reps = match args[3].as_str() { "match" => classcorpus::match_corpus(), "match-order" => classcorpus::order_corpus(), "char" => classcorpus::char_corpus(), "for" => classcorpus::for_corpus(), _ => classcorpus::float_corpus() };
                     for r in &reps {
                         println!("START classcorpus {}", r.name);
                         std::io::stdout().flush().ok();
